@@ -204,6 +204,9 @@ func genProj(r *rng, spare int) *Proj {
 			t.Default = true
 		}
 	}
+	if r.chance(15) {
+		p.addFlag(r)
+	}
 	return p
 }
 
@@ -1173,6 +1176,63 @@ func (g *gen) tplGC() {
 	g.add(Op{Kind: "gc", PreferIndex: r.chance(60)})
 }
 
+// addFlag: a project whose target names depend on a flag of the root package: some root-package targets are named
+// "<name>_" + MODE, and every load of the history passes --mode=alt. Under the default value ("std") those targets
+// have other labels, so a load that forgets the arguments sees other targets than the one the project was built with.
+func (p *Proj) addFlag(r *rng) {
+	const val = "alt"
+	n := 0
+	for _, t := range p.Tgts {
+		if t.Pkg != "" || n >= 2 || !r.chance(60) {
+			continue
+		}
+		old := t.Label()
+		t.Name = t.Name + "_" + val
+		t.FlagNamed = true
+		n++
+		for _, o := range p.Tgts {
+			for i, d := range o.Deps {
+				if d == old {
+					o.Deps[i] = t.Label()
+				}
+			}
+			for i, d := range o.ReadDep {
+				if d == old {
+					o.ReadDep[i] = t.Label()
+				}
+			}
+		}
+	}
+	if n > 0 {
+		p.Flag = val
+	}
+}
+
+// tplGCBroken (C14): a collection while the BUILD file of a package is half-written (syntax error). `dawn gc` loads
+// from index.json, so the load itself succeeds; the collection cannot learn what exists and has to refuse — or at least
+// keep every record of what exists once the file is repaired. Then the file is repaired and the tree is built again.
+func (g *gen) tplGCBroken() {
+	pkgs := g.p.Pkgs
+	pkg := pkgs[g.r.below(len(pkgs))]
+	if len(pkgs) > 1 && g.r.chance(70) {
+		pkg = pkgs[1+g.r.below(len(pkgs)-1)]
+	}
+	root := g.p.topRoot()
+	g.add(g.build(root))
+	if g.r.chance(50) {
+		// every package built: the records of the broken package are there to lose
+		for _, l := range g.p.roots() {
+			if strings.HasSuffix(l, ":default") {
+				g.add(g.build(l))
+			}
+		}
+	}
+	g.edit(Edit{Kind: "break", Path: pkg})
+	g.add(Op{Kind: "gc", PreferIndex: true, ExpectFail: true, Note: "gc while BUILD.dawn of //" + pkg + " does not parse"})
+	g.edit(Edit{Kind: "unbreak", Path: pkg})
+	g.add(g.build(root))
+}
+
 // tplStaleIndexGC (C14, D22): remove a built target, let a full load rewrite the index without it, put the target back,
 // collect with the index-only load `dawn gc` uses, build the target: its record must still be there
 func (g *gen) tplStaleIndexGC() {
@@ -1327,8 +1387,10 @@ func genHistory(r *rng, prop string, nops int) *History {
 			}
 		case "C14":
 			switch {
-			case x < 8:
+			case x < 7:
 				g.tplStaleIndexGC()
+			case x < 14:
+				g.tplGCBroken()
 			case x < 35:
 				g.tplGC()
 			case x < 40:
